@@ -45,9 +45,9 @@ Theorem C10_untouched : forall tsort T ops T' nd cm,
   wf_tbl T = true -> forallb in_class ops = true ->
   edit_all ops T = BOk T' -> batch tsort T ops = BOk (nd, cm) ->
   nd = describe T' /\
-  ((forall k, In k (tb_pk T) -> ~ In k (mentioned ops)) -> n_pk nd = n_pk (describe T)) /\
+  ((forall k, In k (tb_pk T) -> ~ In k (mentioned ops)) -> n_pk nd = n_pk (describe T)) /\   (* the unnamed PK; a NAMED one is a constraint, below *)
   (forall k, ~ In k (mentioned ops) -> aget k (tb_cols T') = aget k (tb_cols T)) /\
-  (forall c, In c (tb_cons T) -> ~ In (k_name c) (mentioned ops) -> In c (tb_cons T')) /\
+  (forall c, In c (tb_cons T) -> ~ In (k_name c) (mentioned ops) -> (forall x, In x (k_cols c) -> ~ In x (mentioned ops)) -> In c (tb_cons T')) /\
   (forall x, In x (tb_idx T) -> ~ In (x_name x) (mentioned ops) -> In x (tb_idx T')).
 Proof.
   intros tsort T ops T' nd cm H1 H2 H3 H4.
@@ -79,10 +79,12 @@ Theorem C10_readd_last_column_refuted :
 Proof. exact readd_refuted. Qed.
 Print Assumptions C10_readd_last_column_refuted.
 
-(* where the model leaves the specification without violating the property text: position of an added column *)
-Theorem C10_added_column_order_refuted : exists i T' nd r,
-  edit_all (j_ops i) (j_tbl i) = BOk T' /\ model10 i = OutOk nd r false /\
-  map c_name (n_cols nd) <> map c_name (n_cols (describe T')) /\ check_C10 i (model10 i) = true.
+(* where an added column lands: the specification appends a column added without position; the code (add_col_ordering +
+   SQLAlchemy's topological sort) puts it right after the first column once the column that was last is dropped *)
+Theorem C10_added_column_order_refuted : exists i,
+  (exists nd r, model10 i = OutOk nd r false /\ map c_name (n_cols nd) = [w_id; w_z; w_a; w_b]) /\
+  (exists T', edit_all (j_ops i) (j_tbl i) = BOk T' /\ map c_name (n_cols (describe T')) = [w_id; w_a; w_b; w_z]) /\
+  check_C10 i (model10 i) = false /\ ~ C10_holds i (model10 i).
 Proof. exact added_order_refuted. Qed.
 Print Assumptions C10_added_column_order_refuted.
 
@@ -124,4 +126,20 @@ Example C10_schema_rename_back_nonvacuous :
   (exists nd cm, batch sa_tsort w_tbl ops = BOk (nd, cm) /\ map c_name (n_cols nd) = [w_id; w_a; w_b; w_c]).
 Proof.
   split; [vm_compute; reflexivity|]. split; [eexists; vm_compute; reflexivity|]. eexists; eexists. split; vm_compute; reflexivity.
+Qed.
+
+(* a NAMED composite primary key declared against the column order: dropped by name it is gone (no PK at all, no unnamed one
+   re-derived from the columns' flags); left alone it stays as it was *)
+Definition nv_npk_tbl : tbl :=
+  mkTbl [(w_id, mkCol w_id 0 false None); (w_a, mkCol w_a 0 false None); (w_b, mkCol w_b 2 true None); (w_c, mkCol w_c 0 true None)]
+        [] [mkCon [112;107] KPrimary [w_a; w_id]; mkCon w_uqc KUnique [w_c]] [].
+Example C10_schema_named_pk_nonvacuous :
+  wf_tbl nv_npk_tbl = true /\
+  (exists T' nd cm, edit_all [ODropConstraint [112;107]] nv_npk_tbl = BOk T' /\ batch sa_tsort nv_npk_tbl [ODropConstraint [112;107]] = BOk (nd, cm) /\
+                    n_pk nd = [] /\ map k_name (n_cons nd) = [w_uqc]) /\
+  (exists nd cm, batch sa_tsort nv_npk_tbl [ODropConstraint w_uqc] = BOk (nd, cm) /\ n_cons nd = [mkCon [112;107] KPrimary [w_a; w_id]]).
+Proof.
+  split; [vm_compute; reflexivity|]. split.
+  - eexists; eexists; eexists. repeat split; vm_compute; reflexivity.
+  - eexists; eexists. split; vm_compute; reflexivity.
 Qed.
